@@ -306,6 +306,16 @@ func (p *pkgState) collectRefs() {
 			results[fd.Name.Name] = b.String()
 		}
 	}
+	seenPath := map[string]bool{}
+	for _, im := range enumImports(s.Enum) {
+		if seenPath[im[1]] {
+			// a package imported under two names: which of the valid names the generator uses for
+			// type references is not the property's business — judged by the build alone
+			p.c.Imports, p.c.Refs = [][2]string{}, []Ref{}
+			return
+		}
+		seenPath[im[1]] = true
+	}
 	for _, im := range enumImports(s.Enum) {
 		alias := im[0]
 		if alias == "" {
